@@ -97,7 +97,7 @@ def _split_directive(line):
 
 def parse_contract(lines, fnrec, unit_name):
     """returns dict: requires[list], ensures[list of Clause], decreases, loops{n:{...}}, hints[list], bodyrep[list]"""
-    c = dict(requires=[], ensures=[], decreases=None, loops={}, hints=[], bodyrep=[], recommends=[])
+    c = dict(requires=[], ensures=[], decreases=None, loops={}, hints=[], bodyrep=[], recommends=[], fmtcat=[])
     section = None
     cur = None
     for raw in lines:
@@ -127,6 +127,10 @@ def parse_contract(lines, fnrec, unit_name):
             section = 'hint'
             cur = dict(where=m.group(1), anchor=(m.group(2) or '""')[1:-1], nth=int((m.group(3) or '#1')[1:]), text=[])
             c['hints'].append(cur)
+            continue
+        m = re.match(r'^fmtcat\s+(\*|".*")\s*$', s)
+        if m:
+            c['fmtcat'].append(m.group(1).strip('"'))
             continue
         m = re.match(r'^body\s+replace\s+("(?:[^"\\]|\\.)*")\s*=>\s*("(?:[^"\\]|\\.)*")\s*$', s)
         if m:
@@ -523,12 +527,19 @@ def assemble(unit_path, repo=REPO):
             for o in kv.get('opt', '').split(','):
                 if o:
                     opts[o] = True
+            if contract['fmtcat']:
+                opts['fmtcat'] = contract['fmtcat']
             sig = rsx.strip_comments(sig)
             if kv.get('slice'):
                 var, fld = kv['slice'].split('.')
                 body, nd = rsx.slice_body(body, var, fld)
                 asm.manual.append('%s: program slice w.r.t. %s (%d top-level statements that only touch other fields dropped; see rsx.slice_body for the rule)' % (fnrec.key, kv['slice'], nd))
                 rw.note('program-slice-by-field', 1)
+            if kv.get('sliceacc'):
+                acc, keep = kv['sliceacc'].strip('"').split(':', 1)
+                body, nd = rsx.slice_acc(body, acc, keep)
+                asm.manual.append('%s: append-only accumulator slice w.r.t. %s (%d appending statements dropped; see rsx.slice_acc)' % (fnrec.key, keep, nd))
+                rw.note('program-slice-append-only', 1)
             for old, new in contract['bodyrep']:
                 if old not in body:
                     raise ExtractError('%s: body replace anchor lost: %r' % (fnrec.name, old))
